@@ -1,0 +1,59 @@
+//go:build verif
+
+// Contracts for the verification machinery in /verif (govc). This file is only compiled with -tags verif;
+// it adds no behaviour to the package. Syntax: see /verif/DESIGN.md, Appendix A.
+package store
+
+// verifAssume / verifAssert are the harness primitives: govc treats them as assumption and obligation;
+// natively (replays) a violated assertion panics with its label.
+func verifAssume(c bool) {
+	if !c {
+		panic("verifAssume: precondition of the harness not met")
+	}
+}
+
+func verifAssert(label string, c bool) {
+	if !c {
+		panic("verifAssert violated: " + label)
+	}
+}
+
+//@ iface attribute.deserialize
+//@   ensures bound: r1 == nil ==> 0 <= r0 && r0 <= len(b)
+//@   assigns self
+
+//@ iface attribute.code
+//@   assigns nothing
+
+//@ func (*TxMetadata).ReadFrom
+//@   requires md.attributes != nil
+//@   assigns nothing
+//@   loop 1 invariant range: 0 <= i && i <= len(b)
+//@   loop 1 decreases len(b) - i
+
+//@ func (*KVMetadata).unsafeReadFrom
+//@   requires md.attributes != nil
+//@   assigns nothing
+//@   loop 1 invariant range: 0 <= i && i <= len(b)
+//@   loop 1 decreases len(b) - i
+
+//@ func (*TxHeader).ReadFrom
+//@   ensures shape: r0 == nil ==> hdr.ID >= 1 && hdr.BlTxID < hdr.ID && hdr.NEntries >= 1 && (hdr.Version == 0 || hdr.Version == 1)
+//@   assigns hdr
+
+//@ func (*ImmuStore).NewWriteOnlyTx
+//@   ensures nonnil: r1 == nil ==> r0 != nil
+
+//@ func (*ImmuStore).precommit
+//@   ensures nonnil: r1 == nil ==> r0 != nil
+
+//@ func (*OngoingTx).set
+
+//@ func (*ImmuStore).WaitForIndexingUpto
+
+//@ func (*ImmuStore).ReplicateTx
+//@   loop 1 invariant range: 0 <= i && i <= len(exportedTx)
+//@   loop 1 invariant count: 0 <= e
+//@   loop 1 decreases hdr.NEntries - e
+//@   loop 1 invariant own: loopowned(entries)
+//@   loop 1 assigns entries
